@@ -15,6 +15,7 @@ package props
 
 import (
 	"context"
+	"encoding/json"
 	"encoding/hex"
 	"fmt"
 	"runtime/debug"
@@ -81,9 +82,27 @@ var hostileBytes = []byte{0x00, 0x01, 0x03, 0x04, 0x05, 0x06, 0x07, 0x0c, 0x0d, 
 
 var genInstrText = rapid.Custom(func(t *rapid.T) Instr { return genInstr(t, false) })
 
+var genIncmpLine = rapid.Custom(func(t *rapid.T) Instr {
+	op := uint16(refdec.INCMP)
+	if chancePct(t, 25, "menuline") {
+		op = []uint16{refdec.MOUT, refdec.MNEXT, refdec.MPREV, refdec.MSINK}[uniformN(t, 4, "inert")]
+	}
+	in := Instr{Op: op}
+	if op != refdec.MSINK {
+		in.Sym = refdec.BS([]string{"foo", "bar", "baz_1", "node"}[uniformN(t, 4, "target")])
+		in.Sel = refdec.BS([]string{"1", "2", "1", "00", "a"}[uniformN(t, 5, "sel")])
+	}
+	return in
+})
+
 func genC15(t *rapid.T) C15Case {
 	var c C15Case
-	c.Prog = rapid.SliceOfN(genInstrText, 1, 8).Draw(t, "prog")
+	if chancePct(t, 30, "incmpprog") {
+		// input routing: several INCMP lines (duplicate selectors common) and menu lines
+		c.Prog = rapid.SliceOfN(genIncmpLine, 2, 6).Draw(t, "incmpprog")
+	} else {
+		c.Prog = rapid.SliceOfN(genInstrText, 1, 8).Draw(t, "prog")
+	}
 	c.Mut.Kind = rapid.SampledFrom([]string{"trunc", "trunc", "subst", "subst", "insert", "delete", "none"}).Draw(t, "mut")
 	c.Mut.Pos = rapid.IntRange(0, 4000).Draw(t, "pos")
 	if rapid.Bool().Draw(t, "hostile") {
@@ -132,16 +151,44 @@ func withoutNoop(ins []Instr) []Instr {
 
 // runVm executes b on a VM whose resource knows no node, template or function.
 func runVm(b []byte) (rest []byte, err error) {
+	return runVmWith(b, nil, false)
+}
+
+// runVmWith: input set (nil: none); knowsNodes: every node exists and consists of HALT.
+func runVmWith(b []byte, input []byte, knowsNodes bool) (rest []byte, err error) {
 	st := state.NewState(2032) // 2040 flags: the largest field whose byte size fits the 8-bit size
 	rs := resource.NewMenuResource()
 	rs.WithCodeGetter(func(ctx context.Context, sym string) ([]byte, error) {
+		if knowsNodes {
+			return []byte{0, 7}, nil
+		}
 		return nil, fmt.Errorf("no such node %q", sym)
 	})
 	ca := cache.NewCache()
 	st.Down("root")
 	ca.Push()
+	if input != nil {
+		st.SetInput(input)
+	}
 	v := vm.NewVm(st, rs, ca, nil)
 	return v.Run(context.Background(), b)
+}
+
+func isRuntimeBoundsPanic(p *panicInfo) bool {
+	return strings.Contains(p.val, "runtime error: index out of range") || strings.Contains(p.val, "runtime error: slice bounds out of range")
+}
+
+func regularName(s string) bool {
+	if len(s) < 2 {
+		return false
+	}
+	for i := 0; i < len(s); i++ {
+		c := s[i]
+		if !(c >= 'a' && c <= 'z' || c >= 'A' && c <= 'Z' || (i > 0 && (c >= '0' && c <= '9' || c == '_'))) {
+			return false
+		}
+	}
+	return true
 }
 
 func isInert(op uint16) bool {
@@ -222,6 +269,63 @@ func checkBytes(b []byte) (v *Violation, rejectedByRef bool, classes []string) {
 			}
 		}
 	}
+	// Vm.Run while input is being handled: the decoder is also reached through the INCMP
+	// paths (before and after a match). Input = the selector of the first INCMP.
+	for _, in := range refIns {
+		if in.Op != refdec.INCMP || in.Sel == "*" || len(in.Sel) > 255 {
+			continue
+		}
+		var ierr error
+		ip := catchPanic(func() { _, ierr = runVmWith(append([]byte{}, b...), []byte(in.Sel), true) })
+		if ip != nil {
+			// an index/slice-bounds runtime error anywhere but in the flag field (flag index out
+			// of range is a documented precondition that panics by design) is the decoder
+			// reading past the end
+			if decoderPanic(ip.stack) || (isRuntimeBoundsPanic(ip) && !strings.Contains(ip.stack, "vise.git/state.")) {
+				return &Violation{Kind: "panic-run", Msg: fmt.Sprintf("Vm.Run with input %q panics while decoding %x: %s", in.Sel, b, ip.val), Detail: ip.stack}, rejectedByRef, classes
+			}
+			classes = append(classes, "run-semantic-panic")
+		} else if derr != nil {
+			// does execution reach the malformed instruction? yes if everything before it is
+			// inert or an INCMP whose target is a plain node name (a match moves there: the
+			// node exists and holds HALT, which comes after the remaining code)
+			reach := true
+			for _, pin := range refIns {
+				if isInert(pin.Op) {
+					continue
+				}
+				if pin.Op == refdec.INCMP && regularName(string(pin.Sym)) {
+					continue
+				}
+				reach = false
+			}
+			if reach {
+				classes = append(classes, "run-with-input-reaches-malformed")
+				if ierr == nil {
+					// F-C15-5: the input ends inside its last instruction, but an earlier INCMP of
+					// the same run matched and appended its target's code behind it: the cut-off
+					// argument is completed with bytes of the appended code
+					appended := false
+					for _, pin := range refIns {
+						if pin.Op == refdec.INCMP && (pin.Sel == in.Sel || pin.Sel == "*") {
+							appended = true
+						}
+					}
+					completes := strings.HasPrefix(derr.Reason, "truncated") && appended
+					if completes && tolerate("F-C15-5") {
+						classes = append(classes, "tolerated:F-C15-5")
+					} else {
+						v := viol("silent-accept-run", "Vm.Run with input %q returns no error on %x although execution reaches a malformed instruction (%v)", in.Sel, b, derr)
+						if completes {
+							v.Detail = "appended-code-completes-truncated-argument"
+						}
+						return v, rejectedByRef, classes
+					}
+				}
+			}
+		}
+		break
+	}
 	if derr != nil {
 		classes = append(classes, "ref:"+derr.Reason)
 	} else {
@@ -243,6 +347,12 @@ func checkC15(c C15Case) (o Outcome) {
 		o.class("mut:" + c.Mut.Kind)
 	}
 	return
+}
+
+func init() {
+	knownPredicates["c15-appended-code-completes-truncated-argument"] = func(sub string, raw json.RawMessage, v *Violation) bool {
+		return v.Kind == "silent-accept-run" && v.Detail == "appended-code-completes-truncated-argument"
+	}
 }
 
 var _ = registerReplay("C15", "mut", checkC15)
